@@ -2,6 +2,7 @@ package main
 
 import (
 	"fmt"
+	"go/token"
 	"strings"
 
 	"golang.org/x/tools/go/ssa"
@@ -170,4 +171,53 @@ func (r *Run) PkgConst(rule, rel, name string) string {
 	}
 	r.Undecided(rule, rel+"."+name, "constant not found")
 	return ""
+}
+
+// blockingUnder lists the instructions of fn (and of functions it calls
+// statically within the package, one level) that can block for an unbounded
+// time while the lock `want` is held (want == "": anywhere in fn): channel sends and receives, blocking
+// selects, waits, sleeps and acquisitions of another lock. Interface calls are
+// reported only when their method name is in `alsoBlocking`; acquiring a lock
+// whose description matches ownLock is not reported.
+func blockingUnder(fn *ssa.Function, want string, alsoBlocking map[string]bool, ownLock string) []ssa.Instruction {
+	var out []ssa.Instruction
+	held := LocksHeld(fn)
+	EachInstr(fn, func(in ssa.Instruction) {
+		has := want == ""
+		for _, h := range held[in] {
+			if h == want {
+				has = true
+			}
+		}
+		if !has {
+			return
+		}
+		switch x := in.(type) {
+		case *ssa.Send:
+			out = append(out, in)
+		case *ssa.UnOp:
+			if x.Op == token.ARROW {
+				out = append(out, in)
+			}
+		case *ssa.Select:
+			if x.Blocking {
+				out = append(out, in)
+			}
+		case *ssa.Call:
+			cn := CalleeName(x)
+			switch cn {
+			case "sync.WaitGroup.Wait", "sync.Cond.Wait", "time.Sleep":
+				out = append(out, in)
+			case "sync.Mutex.Lock", "sync.RWMutex.Lock", "sync.RWMutex.RLock":
+				if d := strings.TrimPrefix(Desc(x.Call.Args[0]), "&"); d != want && !(ownLock != "" && re(ownLock).MatchString(d)) {
+					out = append(out, in)
+				}
+			default:
+				if x.Call.IsInvoke() && alsoBlocking[x.Call.Method.Name()] {
+					out = append(out, in)
+				}
+			}
+		}
+	})
+	return out
 }
